@@ -130,7 +130,7 @@ func workerMain() {
 		el := time.Since(t0)
 		runtime.ReadMemStats(&ms1)
 		canon := "-"
-		if f[0] == "ReadFrom" && o == oOK && len(bs) <= 3000 {
+		if f[0] == "ReadFrom" && o == oOK && len(bs) <= 3000 && f[1] != "forest" && f[1] != "niltype" { // the rendering is for the decoder model only, which does not take these type maps (and a map reachable along 2^n paths has a rendering of that size)
 			if o2, _ := guard(func() error { canon = dvalString(lastDecoded); return nil }); o2 != oOK {
 				canon = "-"
 			}
@@ -260,6 +260,16 @@ func c14Inputs(c *ctx, emit func(label string, bs []byte)) {
 		seeds = append(seeds, tl)
 		seeds = append(seeds, append([]byte{'C', 0x01, 'A', 'I', 0, 0, byte(cnt >> 8), byte(cnt)}, 0x01, 'x'))
 	}
+	// a string and a byte array in a great many one-item chunks (the encoder cuts chunks of 2048 and
+	// 4096 items; the grammar allows any): collecting the chunks must cost what the input costs
+	{
+		var sb, bb []byte
+		for i := 0; i < 100000; i++ {
+			sb = append(sb, 'R', 0, 1, byte('a'+i%26))
+			bb = append(bb, 'A', 0, 1, byte(i))
+		}
+		seeds = append(seeds, append(sb, 'S', 0, 1, 'z'), append(bb, 'B', 0, 1, 7), append(append([]byte{0x57}, sb...), 0x01, 'z', 'Z'))
+	}
 	for _, s := range seeds {
 		emit("seed", s)
 	}
@@ -268,6 +278,20 @@ func c14Inputs(c *ctx, emit func(label string, bs []byte)) {
 		append(append([]byte{'C', 0x06}, []byte("Forest")...), 0x91, 0x01, 't', 0x60, 'H', 0x01, 'k', 'H', 0x01, 'a', 0x51, 0x92, 'Z', 'Z'),
 		// ... and a map reachable along two paths at every level (direct and by back-reference)
 		append(append([]byte{'C', 0x06}, []byte("Forest")...), 0x91, 0x01, 't', 0x60, 'H', 0x01, 'k', 'H', 0x01, 'a', 'H', 0x01, 'a', 'H', 'Z', 0x01, 'b', 0x51, 0x94, 'Z', 0x01, 'b', 0x51, 0x93, 'Z', 0x01, 'j', 0x51, 0x92, 'Z'),
+		// ... 22 levels deep: key "a" holds the next level, key "b" a back-reference to that same level
+		// (object #0, level i is #i+1); the work must follow the 200 bytes, not the 2^22 paths
+		func() []byte {
+			b := append(append([]byte{'C', 0x06}, []byte("Forest")...), 0x91, 0x01, 't', 0x60)
+			const depth = 22
+			for i := 0; i < depth; i++ {
+				b = append(b, 'H', 0x01, 'a')
+			}
+			b = append(b, 'H', 'Z')
+			for i := depth - 1; i >= 0; i-- {
+				b = append(b, 0x01, 'b', 0x51, byte(0x90+i+2), 'Z')
+			}
+			return b
+		}(),
 	} {
 		emit("forest", s)
 	}
